@@ -181,6 +181,19 @@ add(
     "finite-domain symbolic execution (z3 feasibility per branch) of the real registry functions, inductive invariant",
 )
 
+add(
+    "C18",
+    "Overwrite protection: the real save_model / save_parameters / save_scheme / save_result / save_dataset and "
+    "protect_from_overwrite run against a symbolic file system (target is file / directory / non-empty, parent is a file, "
+    "allow_overwrite: solver booleans) for explicit / inferred / unknown / missing formats and plugins that write or fail "
+    "midway; on every path: exists and not allow_overwrite => FileExistsError, no plugin write, target not created, the "
+    "check precedes plugin lookup; otherwise the resolved plugin is called exactly once. Run numbering / latest-result "
+    "lookup: see the 'runs' configurations (string encoding) when present in the evidence file.",
+    "pathlib.Path / os.listdir inside io_plugin_utils are replaced by a shim answering from solver booleans; byte identity is "
+    "not modelled (claim: no write call reached). " + COMMON_NOTE,
+    "3/C18",
+)
+
 ALL = [f"C{i:02d}" for i in range(1, 21)]
 
 
